@@ -6,6 +6,9 @@ A file is a sequence of records  <u32 len(name)><u32 len(data)> name data .
   a single write() (a record is visible iff it was completely written).
   `name in f`, f[name] re-read the file; f[name] converts through numpy to np.void(bytes).
   A truncated trailing record raises OSError on access (like a corrupt HDF5 file).
+  close() of a file opened with "a" appends a commit record (name "\x00closed"); a file whose last record is not a commit
+  record was never closed by its writer (HDF5 writes its index at flush / close): reading it raises OSError, like opening an
+  HDF5 file that was not closed properly.  An empty file (created, nothing written, not closed) is unreadable too.
 
 Fidelity to real HDF5 is part of the trusted base (DESIGN.md 3.6).  When the environment variable
 EXECUTORLIB_VERIF_FSLOG names a file, every persistence operation is appended to it, and
@@ -18,6 +21,7 @@ import numpy as np
 
 __version__ = "0.0-standin"
 _count = 0
+_COMMIT = "\x00closed"
 _hook = None      # in-process observer: callable(kind, path, detail), set by the verification harness
 
 
@@ -50,7 +54,8 @@ class _Locked:
         return False
 
 
-def _read(path):
+def _read(path, own=False):
+    """own=True: the reader is the process that has the file open for appending (its view is not limited to closed files)."""
     recs = []
     with open(path, "rb") as fh:
         blob = fh.read()
@@ -65,7 +70,11 @@ def _read(path):
         data = blob[i + 8 + ln : i + 8 + ln + ld]
         recs.append((name, data))
         i += 8 + ln + ld
-    return recs
+    if own:
+        return [(k, d) for k, d in recs if k != _COMMIT]
+    if not recs or recs[-1][0] != _COMMIT:
+        raise OSError(f"Unable to open file (file was not closed by its writer: {path})")
+    return [(k, d) for k, d in recs if k != _COMMIT]
 
 
 def _norm(name):
@@ -111,8 +120,12 @@ class File:
         return False
 
     def close(self):
-        if self._mode == "a":
+        if self._mode == "a" and not getattr(self, "_closed", False):
+            self._closed = True
             with _Locked():
+                nb = _COMMIT.encode()
+                with open(self._name, "ab") as fh:
+                    fh.write(struct.pack("<II", len(nb), 0) + nb)
                 _op("close", self._name)
 
     def create_dataset(self, name, data=None):
@@ -120,7 +133,7 @@ class File:
             raise ValueError("Unable to create dataset (no write intent on file)")
         n = _norm(name)
         with _Locked():
-            if any(k == n for k, _ in _read(self._name)):
+            if any(k == n for k, _ in _read(self._name, own=True)):
                 _op("create_dataset_exists", self._name, n)
                 raise ValueError("Unable to create dataset (name already exists)")
             raw = data.tobytes() if hasattr(data, "tobytes") else bytes(data)
@@ -133,17 +146,17 @@ class File:
     def __contains__(self, name):
         n = _norm(name)
         with _Locked():
-            r = any(k == n for k, _ in _read(self._name))
+            r = any(k == n for k, _ in _read(self._name, own=(self._mode == "a")))
             if n == "output" and r:
                 _op("has_output", self._name, str(r))
             return r
 
     def __getitem__(self, name):
         n = _norm(name)
-        for k, d in _read(self._name):
+        for k, d in _read(self._name, own=(self._mode == "a")):
             if k == n:
                 return _Dataset(d)
         raise KeyError(f"Unable to open object (object '{n}' doesn't exist)")
 
     def keys(self):
-        return [k for k, _ in _read(self._name)]
+        return [k for k, _ in _read(self._name, own=(self._mode == "a"))]
